@@ -775,6 +775,19 @@ fn family_jobs(tier: Tier, seed: u64) -> Vec<(&'static str, Vec<(String, Job)>)>
                 }
                 if t {
                     push(&mut jobs, GOp::FMul($c), m);
+                } else if matches!($c, Curve::Secp) {
+                    // quick: the scalars 0 and 1 (which the chip could be tempted to treat as
+                    // constants) against a generic one
+                    let mq: Vec<Wit<GW>> = [(0usize, 1usize), (1, 1), (5, 1)]
+                        .into_iter()
+                        .map(|(si, pi)| {
+                            gw(format!("{}*{}", scs[si].0, pts[pi].0), true, |w| {
+                                w.$scfield = vec![scs[si].1];
+                                w.$field = vec![pts[pi].1]
+                            })
+                        })
+                        .collect();
+                    push(&mut jobs, GOp::FMul($c), mq);
                 }
                 // k out of n: pts = [id, G, -G, 2G, R]
                 let mut kn = vec![];
